@@ -158,6 +158,39 @@ def run(ctx):
                      "User.%s is not (always) part of the pool definition hash: a reload that changes only this field keeps the old pool, whose snapshot keeps admitting the revoked password / skipping the new challenge" % fld)
 
     # ---------------- R3 pool must exist; R4 admin-only gate
+    # the challenge is worth something only if its salt cannot be foreseen or met again: the four bytes md5_challenge sends and returns come from the
+    # process-wide CSPRNG (rand::random / a rand Rng), not from a counter, a clock, a pid or a generator seeded with any of those - with a repeating
+    # salt a sniffed (salt, PasswordMessage) pair is a credential
+    mc = F.body("pgcat::messages::md5_challenge::{closure#0}")
+    if mc is None:
+        r2.missing("messages::md5_challenge")
+    else:
+        okv = [st["rv"]["ops"][0] for blk, i, st in mc.assigns() if st["lhs"]["l"] == 0 and st["rv"]["k"] == "agg" and st["rv"].get("variant") == "Ok" and st["rv"].get("ops")]
+
+        def value_sources(body, ops, depth=0):
+            out = set()
+            for op in ops:
+                for o in origins(body, op, taint=True):
+                    if o.kind == "call":
+                        cb = F.body(o.call.name) if o.call.name.startswith("pgcat::") else None
+                        if cb is not None and depth < 2:
+                            # a helper of pgcat's own: what it returns
+                            rv_ops = [st["rv"].get("op") or (st["rv"].get("ops") or [None])[0] for blk, i, st in cb.assigns() if st["lhs"]["l"] == 0 and not st["lhs"]["p"]]
+                            rv_ops = [x for x in rv_ops if x is not None] or [0]
+                            out |= value_sources(cb, rv_ops, depth + 1) | {x for c_ in cb.calls("re:thread::local|LocalKey") for x in ["static:thread-local state"]}
+                        else:
+                            out.add(o.call.name)
+                    elif o.kind in ("static", "bin", "param"):
+                        out.add("%s:%s" % (o.kind, o.what))
+                    elif o.kind == "const" and not isinstance(o.what, (int, type(None))):
+                        out.add("const:%s" % (o.what,))
+            return out
+        srcs = value_sources(mc, okv)
+        rnd = {x for x in srcs if re.search(r"^rand::(random|rngs::|Rng::|RngCore::)|::(gen|fill|fill_bytes|next_u32|next_u64)$", x) and "rand" in x}
+        other = sorted(x for x in srcs - rnd if not re.search(r"^core::(convert|ops::deref)|::into$|::from$|::clone$", x))
+        r2.check(bool(okv) and bool(rnd) and not other, "salt-from-the-csprng", "the salt md5_challenge issues comes from %s only" % sorted(x.split("::")[-1] for x in rnd),
+                 "the salt md5_challenge issues does not (only) come from the CSPRNG (%s): a salt sequence that can be foreseen or that repeats - per thread, after a restart with the same pid - turns one observed "
+                 "login into a reusable credential, for pool users and for the admin database" % (other or "no random source found"))
     # the cell the fetched secret is kept in (and compared from) belongs to one (database, user) pool: allocated per user in from_config
     from common import pool_cell_findings
     pcf = pool_cell_findings(F, {"auth_hash"})
